@@ -336,6 +336,8 @@ func (evm *EVM) Call(ctx context.Context, caller ethvm.ContractRef, addr common.
 						preCallResult.Err = ErrOutOfGas
 					}
 
+					// the frame fails: undo the value transfer and account creation made on entry
+					evm.StateDB.RevertToSnapshot(snapshot)
 					return preCallResult.Ret, preCallResult.Gas, preCallResult.Err
 				}
 
